@@ -1,5 +1,6 @@
 """C17 — bit, varint and buffer primitives round-trip every value."""
 import vcheck as V
+import tieleaf
 LEVEL = "proof"
 PROP_FILE = "Properties_C17.v"
 RULE = ("cases = varint/zig-zag/scalar encodes (exhaustive 8-bit; 16-bit exhaustive in thorough, every 7th in quick; boundary-biased "
@@ -9,6 +10,10 @@ RULE = ("cases = varint/zig-zag/scalar encodes (exhaustive 8-bit; 16-bit exhaust
 def corr_runs(ctx):
     return [dict(tag="h_C17", harness="C17", driver="C17", args=[ctx.tier, ctx.seed],
                  needs_vo=["Model/Varint.vo", "Model/BitBuffer.vo", "Model/Ans.vo", "Model/BitCoders.vo", "Model/AdaptiveProb.vo", "Base/DriverSupport.vo"])]
+
+def extra(ctx, lib):
+    # zig-zag leaves regenerated from the C++ and proved equal to the hand model (coq/Tie/Tie_Leaf.v)
+    tieleaf.record(ctx, ["ConvertSignedIntToSymbol", "ConvertSymbolToSignedInt"])
 
 def run(ctx):
     V.standard_run(ctx, __import__(__name__))
